@@ -64,54 +64,94 @@ theorem readPass_ok (ks : List κ) (vs : List ν) (vrest : List (Item ν))
 
 /-! ## single steps -/
 
-/-- `try_seed` results after which `build_loop` simply tries the next seed -/
+/-- `try_seed` results after which `build_loop` tries the next seed without touching `dup_count`
+    or `local_dup_count` (an oversized maximum shard does count, in `max_shard_count`) -/
 def PlainTransient (att : Attempt F) : Prop :=
   att = .solveErr .unsolvable ∨ att = .solveErr .maxShardTooBig
+
+/-- `try_seed` results that are retried without any bound: an unsolvable shard, and an oversized
+    maximum shard when duplicate checking is off -/
+def Unbounded (S : Sys κ ν F) (att : Attempt F) : Prop :=
+  att = .solveErr .unsolvable ∨ (att = .solveErr .maxShardTooBig ∧ S.checkDups = false)
 
 /-- `try_seed` results that end `build_loop` whatever the counters are -/
 def Final : Attempt F → Prop
   | .solveErr _ => False
   | _ => True
 
-theorem retry_ne_outOfFuel (S : Sys κ ν F) (a d ld : Nat) : retry S a d ld ≠ .done .outOfFuel := by
+theorem retry_ne_outOfFuel (S : Sys κ ν F) (a d ld m : Nat) :
+    retry S a d ld m ≠ .done .outOfFuel := by
   unfold retry; split <;> simp
 
-theorem retry_ne_ok (S : Sys κ ν F) (a d ld : Nat) (f : F) : retry S a d ld ≠ .done (.ok f) := by
+theorem retry_ne_ok (S : Sys κ ν F) (a d ld m : Nat) (f : F) :
+    retry S a d ld m ≠ .done (.ok f) := by
   unfold retry; split <;> simp
 
-theorem step_ne_outOfFuel (S : Sys κ ν F) (a d ld : Nat) : step S a d ld ≠ .done .outOfFuel := by
+theorem step_ne_outOfFuel (S : Sys κ ν F) (a d ld m : Nat) :
+    step S a d ld m ≠ .done .outOfFuel := by
   unfold step
   cases trySeed S a with
   | solveErr k =>
-    cases k <;> simp only [] <;> (try split) <;> (first | exact retry_ne_outOfFuel _ _ _ _ | simp)
+    cases k <;> simp only [] <;> (try split) <;> (first | exact retry_ne_outOfFuel _ _ _ _ _ | simp)
   | _ => simp
 
-theorem step_io (S : Sys κ ν F) (a d ld : Nat) (h : trySeed S a = .ioErr) :
-    step S a d ld = .done .errIo := by
+theorem step_io (S : Sys κ ν F) (a d ld m : Nat) (h : trySeed S a = .ioErr) :
+    step S a d ld m = .done .errIo := by
   unfold step; rw [h]
 
-theorem step_ok (S : Sys κ ν F) (a d ld : Nat) (f : F) (h : trySeed S a = .ok f) :
-    step S a d ld = .done (.ok f) := by
+theorem step_ok (S : Sys κ ν F) (a d ld m : Nat) (f : F) (h : trySeed S a = .ok f) :
+    step S a d ld m = .done (.ok f) := by
   unfold step; rw [h]
 
-theorem step_plain (S : Sys κ ν F) (a d ld : Nat) (h : PlainTransient (trySeed S a)) :
-    step S a d ld = if rewindsOk S a then .again d ld else .done .errIo := by
-  unfold step retry
-  rcases h with h | h <;> rw [h]
-
-theorem step_dup (S : Sys κ ν F) (a d ld : Nat) (h : trySeed S a = .solveErr .dupSig) :
-    step S a d ld = if d ≥ 3 then .done .errDuplicateKey
-      else if rewindsOk S a then .again (d + 1) ld else .done .errIo := by
+theorem step_uns (S : Sys κ ν F) (a d ld m : Nat) (h : trySeed S a = .solveErr .unsolvable) :
+    step S a d ld m = if rewindsOk S a then .again d ld m else .done .errIo := by
   unfold step retry; rw [h]
 
-theorem step_ldup (S : Sys κ ν F) (a d ld : Nat) (h : trySeed S a = .solveErr .dupLocalSig) :
-    step S a d ld = if ld ≥ 2 then .done .errDuplicateLocalSignatures
-      else if rewindsOk S a then .again d (ld + 1) else .done .errIo := by
+/-- the `MaxShardTooBig` arm (after the fix of D34) -/
+theorem step_mst (S : Sys κ ν F) (a d ld m : Nat) (h : trySeed S a = .solveErr .maxShardTooBig) :
+    step S a d ld m =
+      if S.checkDups && decide (m ≥ Gen.maxShardTooBigRetries) then .done .errDuplicateKey
+      else if rewindsOk S a then .again d ld (m + 1) else .done .errIo := by
+  unfold step retry; rw [h]
+
+/-- a plainly transient attempt below the bound: rewind and go on; `max_shard_count` moves by at
+    most one -/
+theorem step_plain (S : Sys κ ν F) (a d ld m : Nat) (h : PlainTransient (trySeed S a))
+    (hc : S.checkDups = true → m < Gen.maxShardTooBigRetries) :
+    ∃ m', m ≤ m' ∧ m' ≤ m + 1 ∧
+      step S a d ld m = if rewindsOk S a then .again d ld m' else .done .errIo := by
+  rcases h with h | h
+  · exact ⟨m, Nat.le_refl _, by omega, step_uns S a d ld m h⟩
+  · refine ⟨m + 1, by omega, Nat.le_refl _, ?_⟩
+    rw [step_mst S a d ld m h]
+    have : (S.checkDups && decide (m ≥ Gen.maxShardTooBigRetries)) = false := by
+      cases hcd : S.checkDups with
+      | false => rfl
+      | true =>
+        have := hc hcd
+        simp only [Bool.true_and, decide_eq_false_iff_not]; omega
+    rw [this]; rfl
+
+theorem step_unbounded (S : Sys κ ν F) (a d ld m : Nat) (h : Unbounded S (trySeed S a)) :
+    ∃ m', step S a d ld m = if rewindsOk S a then .again d ld m' else .done .errIo := by
+  rcases h with h | ⟨h, hcd⟩
+  · exact ⟨m, step_uns S a d ld m h⟩
+  · refine ⟨m + 1, ?_⟩
+    rw [step_mst S a d ld m h, hcd]; rfl
+
+theorem step_dup (S : Sys κ ν F) (a d ld m : Nat) (h : trySeed S a = .solveErr .dupSig) :
+    step S a d ld m = if d ≥ 3 then .done .errDuplicateKey
+      else if rewindsOk S a then .again (d + 1) ld m else .done .errIo := by
+  unfold step retry; rw [h]
+
+theorem step_ldup (S : Sys κ ν F) (a d ld m : Nat) (h : trySeed S a = .solveErr .dupLocalSig) :
+    step S a d ld m = if ld ≥ 2 then .done .errDuplicateLocalSignatures
+      else if rewindsOk S a then .again d (ld + 1) m else .done .errIo := by
   unfold step retry; rw [h]
 
 /-- a step never answers `ok` unless `try_seed` did -/
-theorem step_done_ok (S : Sys κ ν F) (a d ld : Nat) (f : F) (h : step S a d ld = .done (.ok f)) :
-    trySeed S a = .ok f := by
+theorem step_done_ok (S : Sys κ ν F) (a d ld m : Nat) (f : F)
+    (h : step S a d ld m = .done (.ok f)) : trySeed S a = .ok f := by
   unfold step at h
   cases hts : trySeed S a with
   | ok g => rw [hts] at h; simp only [] at h; injection h with h; injection h with h; rw [h]
@@ -120,67 +160,85 @@ theorem step_done_ok (S : Sys κ ν F) (a d ld : Nat) (f : F) (h : step S a d ld
     cases k <;> simp only [] at h
     · split at h
       · simp at h
-      · exact absurd h (retry_ne_ok _ _ _ _ _)
+      · exact absurd h (retry_ne_ok _ _ _ _ _ _)
     · split at h
       · simp at h
-      · exact absurd h (retry_ne_ok _ _ _ _ _)
-    · exact absurd h (retry_ne_ok _ _ _ _ _)
-    · exact absurd h (retry_ne_ok _ _ _ _ _)
+      · exact absurd h (retry_ne_ok _ _ _ _ _ _)
+    · split at h
+      · simp at h
+      · exact absurd h (retry_ne_ok _ _ _ _ _ _)
+    · exact absurd h (retry_ne_ok _ _ _ _ _ _)
   | _ => rw [hts] at h; simp at h
 
-theorem buildLoop_succ (S : Sys κ ν F) (fuel a d ld : Nat) :
-    buildLoop S (fuel + 1) a d ld =
-      match step S a d ld with
+theorem buildLoop_succ (S : Sys κ ν F) (fuel a d ld m : Nat) :
+    buildLoop S (fuel + 1) a d ld m =
+      match step S a d ld m with
       | .done r => (r, a + 1)
-      | .again d' ld' => buildLoop S fuel (a + 1) d' ld' := rfl
+      | .again d' ld' m' => buildLoop S fuel (a + 1) d' ld' m' := rfl
 
 /-! ## error propagation -/
 
-/-- `k` plainly transient attempts followed by successful rewinds just advance the loop -/
+/-- `k` plainly transient attempts followed by successful rewinds just advance the loop, as long
+    as `max_shard_count` cannot reach its bound (`check_dups` off, or `m + k` within the bound) -/
 theorem buildLoop_skip (S : Sys κ ν F) (k : Nat) :
-    ∀ (a d ld fuel : Nat), (∀ j, a ≤ j → j < a + k → PlainTransient (trySeed S j) ∧ rewindsOk S j = true) →
-      buildLoop S (fuel + k) a d ld = buildLoop S fuel (a + k) d ld := by
+    ∀ (a d ld m fuel : Nat),
+      (∀ j, a ≤ j → j < a + k → PlainTransient (trySeed S j) ∧ rewindsOk S j = true) →
+      (S.checkDups = true → m + k ≤ Gen.maxShardTooBigRetries) →
+      ∃ m', m ≤ m' ∧ m' ≤ m + k ∧
+        buildLoop S (fuel + k) a d ld m = buildLoop S fuel (a + k) d ld m' := by
   induction k with
-  | zero => intros; rfl
+  | zero => intro a d ld m fuel _ _; exact ⟨m, Nat.le_refl _, Nat.le_refl _, rfl⟩
   | succ k ih =>
-    intro a d ld fuel h
+    intro a d ld m fuel h hc
     have h0 := h a (Nat.le_refl a) (by omega)
+    obtain ⟨m1, l1, u1, hs⟩ := step_plain S a d ld m h0.1 (fun e => by have := hc e; omega)
+    obtain ⟨m', l2, u2, hb⟩ := ih (a + 1) d ld m1 fuel (fun j h1 h2 => h j (by omega) (by omega))
+      (fun e => by have := hc e; omega)
+    refine ⟨m', by omega, by omega, ?_⟩
     have : fuel + (k + 1) = (fuel + k) + 1 := by omega
-    rw [this, buildLoop_succ, step_plain S a d ld h0.1, h0.2]
+    rw [this, buildLoop_succ, hs, h0.2]
     simp only [if_true]
-    rw [ih (a + 1) d ld fuel (fun j h1 h2 => h j (by omega) (by omega))]
+    rw [hb]
     congr 1; omega
 
 /-- Key or value errors on pass `k` (after `k` plainly transient attempts): the loop returns the
     I/O error after exactly `k + 1` attempts -/
 theorem buildLoop_io_at (S : Sys κ ν F) (k fuel : Nat) (hk : k < fuel)
+    (hc : S.checkDups = true → k ≤ Gen.maxShardTooBigRetries)
     (hpre : ∀ j, j < k → PlainTransient (trySeed S j) ∧ rewindsOk S j = true)
     (hio : trySeed S k = .ioErr) : build S fuel = (.errIo, k + 1) := by
   obtain ⟨r, rfl⟩ : ∃ r, fuel = (r + 1) + k := ⟨fuel - k - 1, by omega⟩
   unfold build
-  rw [buildLoop_skip S k 0 0 0 (r + 1) (fun j _ h2 => hpre j (by omega))]
-  rw [buildLoop_succ, step_io S _ 0 0 (by simpa using hio)]
+  obtain ⟨m', _, _, hb⟩ := buildLoop_skip S k 0 0 0 0 (r + 1) (fun j _ h2 => hpre j (by omega))
+    (fun e => by have := hc e; omega)
+  rw [hb, buildLoop_succ, step_io S _ 0 0 m' (by simpa using hio)]
   simp
 
 /-- A failing rewind after the transient attempt `k` is returned as an error -/
 theorem buildLoop_rewind_fail_at (S : Sys κ ν F) (k fuel : Nat) (hk : k < fuel)
+    (hc : S.checkDups = true → k < Gen.maxShardTooBigRetries)
     (hpre : ∀ j, j < k → PlainTransient (trySeed S j) ∧ rewindsOk S j = true)
     (htr : PlainTransient (trySeed S k)) (hrw : rewindsOk S k = false) :
     build S fuel = (.errIo, k + 1) := by
   obtain ⟨r, rfl⟩ : ∃ r, fuel = (r + 1) + k := ⟨fuel - k - 1, by omega⟩
   unfold build
-  rw [buildLoop_skip S k 0 0 0 (r + 1) (fun j _ h2 => hpre j (by omega))]
-  rw [buildLoop_succ, step_plain S _ 0 0 (by simpa using htr)]
+  obtain ⟨m', _, hu, hb⟩ := buildLoop_skip S k 0 0 0 0 (r + 1) (fun j _ h2 => hpre j (by omega))
+    (fun e => by have := hc e; omega)
+  obtain ⟨m2, _, _, hs⟩ := step_plain S (0 + k) 0 0 m' (by simpa using htr)
+    (fun e => by have := hc e; omega)
+  rw [hb, buildLoop_succ, hs]
   simp [hrw]
 
 /-- success on attempt `k` after `k` plainly transient attempts -/
 theorem buildLoop_ok_at (S : Sys κ ν F) (k fuel : Nat) (hk : k < fuel) (f : F)
+    (hc : S.checkDups = true → k ≤ Gen.maxShardTooBigRetries)
     (hpre : ∀ j, j < k → PlainTransient (trySeed S j) ∧ rewindsOk S j = true)
     (hok : trySeed S k = .ok f) : build S fuel = (.ok f, k + 1) := by
   obtain ⟨r, rfl⟩ : ∃ r, fuel = (r + 1) + k := ⟨fuel - k - 1, by omega⟩
   unfold build
-  rw [buildLoop_skip S k 0 0 0 (r + 1) (fun j _ h2 => hpre j (by omega))]
-  rw [buildLoop_succ, step_ok S _ 0 0 f (by simpa using hok)]
+  obtain ⟨m', _, _, hb⟩ := buildLoop_skip S k 0 0 0 0 (r + 1) (fun j _ h2 => hpre j (by omega))
+    (fun e => by have := hc e; omega)
+  rw [hb, buildLoop_succ, step_ok S _ 0 0 m' f (by simpa using hok)]
   simp
 
 /-! ## duplicates -/
@@ -191,13 +249,13 @@ theorem dup_four (S : Sys κ ν F) (fuel : Nat) (hf : 4 ≤ fuel)
     build S fuel = (.errDuplicateKey, 4) := by
   obtain ⟨r, rfl⟩ : ∃ r, fuel = r + 4 := ⟨fuel - 4, by omega⟩
   unfold build
-  rw [buildLoop_succ, step_dup S 0 0 0 (hd 0 (by omega)), hr 0 (by omega)]
+  rw [buildLoop_succ, step_dup S 0 0 0 0 (hd 0 (by omega)), hr 0 (by omega)]
   simp only [ge_iff_le, show ¬ (3 ≤ 0) by omega, if_false, if_true]
-  rw [buildLoop_succ, step_dup S 1 1 0 (hd 1 (by omega)), hr 1 (by omega)]
+  rw [buildLoop_succ, step_dup S 1 1 0 0 (hd 1 (by omega)), hr 1 (by omega)]
   simp only [ge_iff_le, show ¬ (3 ≤ 1) by omega, if_false, if_true]
-  rw [buildLoop_succ, step_dup S 2 2 0 (hd 2 (by omega)), hr 2 (by omega)]
+  rw [buildLoop_succ, step_dup S 2 2 0 0 (hd 2 (by omega)), hr 2 (by omega)]
   simp only [ge_iff_le, show ¬ (3 ≤ 2) by omega, if_false, if_true]
-  rw [buildLoop_succ, step_dup S 3 3 0 (hd 3 (by omega))]
+  rw [buildLoop_succ, step_dup S 3 3 0 0 (hd 3 (by omega))]
   simp
 
 theorem ldup_three (S : Sys κ ν F) (fuel : Nat) (hf : 3 ≤ fuel)
@@ -206,101 +264,262 @@ theorem ldup_three (S : Sys κ ν F) (fuel : Nat) (hf : 3 ≤ fuel)
     build S fuel = (.errDuplicateLocalSignatures, 3) := by
   obtain ⟨r, rfl⟩ : ∃ r, fuel = r + 3 := ⟨fuel - 3, by omega⟩
   unfold build
-  rw [buildLoop_succ, step_ldup S 0 0 0 (hd 0 (by omega)), hr 0 (by omega)]
+  rw [buildLoop_succ, step_ldup S 0 0 0 0 (hd 0 (by omega)), hr 0 (by omega)]
   simp only [ge_iff_le, show ¬ (2 ≤ 0) by omega, if_false, if_true]
-  rw [buildLoop_succ, step_ldup S 1 0 1 (hd 1 (by omega)), hr 1 (by omega)]
+  rw [buildLoop_succ, step_ldup S 1 0 1 0 (hd 1 (by omega)), hr 1 (by omega)]
   simp only [ge_iff_le, show ¬ (2 ≤ 1) by omega, if_false, if_true]
-  rw [buildLoop_succ, step_ldup S 2 0 2 (hd 2 (by omega))]
+  rw [buildLoop_succ, step_ldup S 2 0 2 0 (hd 2 (by omega))]
   simp
 
 /-! ## `ok` comes from the last attempt -/
 
 theorem buildLoop_ok_last (S : Sys κ ν F) (fuel : Nat) :
-    ∀ (a d ld : Nat) (f : F) (k : Nat), buildLoop S fuel a d ld = (.ok f, k) →
+    ∀ (a d ld m : Nat) (f : F) (k : Nat), buildLoop S fuel a d ld m = (.ok f, k) →
       a < k ∧ trySeed S (k - 1) = .ok f := by
   induction fuel with
-  | zero => intro a d ld f k h; simp [buildLoop] at h
+  | zero => intro a d ld m f k h; simp [buildLoop] at h
   | succ fuel ih =>
-    intro a d ld f k h
+    intro a d ld m f k h
     rw [buildLoop_succ] at h
-    cases hs : step S a d ld with
+    cases hs : step S a d ld m with
     | done r =>
       rw [hs] at h
       simp only [Prod.mk.injEq] at h
       obtain ⟨h1, h2⟩ := h
       subst h1 h2
-      exact ⟨by omega, by simpa using step_done_ok S a d ld f hs⟩
-    | again d' ld' =>
+      exact ⟨by omega, by simpa using step_done_ok S a d ld m f hs⟩
+    | again d' ld' m' =>
       rw [hs] at h
-      have := ih (a + 1) d' ld' f k h
+      have := ih (a + 1) d' ld' m' f k h
       exact ⟨by omega, this.2⟩
 
-/-- the number of attempts is positive and the result of a step is never `outOfFuel` -/
+/-- the number of attempts is at least the starting index -/
 theorem buildLoop_attempts_pos (S : Sys κ ν F) (fuel : Nat) :
-    ∀ (a d ld : Nat), a ≤ (buildLoop S fuel a d ld).2 := by
+    ∀ (a d ld m : Nat), a ≤ (buildLoop S fuel a d ld m).2 := by
   induction fuel with
-  | zero => intro a d ld; simp [buildLoop]
+  | zero => intro a d ld m; simp [buildLoop]
   | succ fuel ih =>
-    intro a d ld
+    intro a d ld m
     rw [buildLoop_succ]
-    cases hs : step S a d ld with
+    cases hs : step S a d ld m with
     | done r => simp
-    | again d' ld' => have := ih (a + 1) d' ld'; simp only []; omega
+    | again d' ld' m' => have := ih (a + 1) d' ld' m'; simp only []; omega
 
 /-! ## termination -/
 
 /-- if some attempt is final (anything but a `SolveError`), the loop terminates -/
 theorem terminates_of_final (S : Sys κ ν F) (k : Nat) (hfin : Final (trySeed S k)) :
-    ∀ (n a d ld : Nat), a + n = k → (buildLoop S (n + 1) a d ld).1 ≠ .outOfFuel := by
+    ∀ (n a d ld m : Nat), a + n = k → (buildLoop S (n + 1) a d ld m).1 ≠ .outOfFuel := by
   intro n
   induction n with
   | zero =>
-    intro a d ld hk
+    intro a d ld m hk
     have hk' : a = k := by omega
     subst hk'
     rw [buildLoop_succ]
-    have hne := step_ne_outOfFuel S a d ld
-    cases hs : step S a d ld with
+    have hne := step_ne_outOfFuel S a d ld m
+    cases hs : step S a d ld m with
     | done r => simp only []; intro e; exact hne (by rw [hs, e])
-    | again d' ld' =>
+    | again d' ld' m' =>
       exfalso
       unfold step at hs
       cases hts : trySeed S a with
       | solveErr e => rw [hts] at hfin; exact hfin
       | _ => rw [hts] at hs; simp at hs
   | succ n ih =>
-    intro a d ld hk
+    intro a d ld m hk
     rw [buildLoop_succ]
-    have hne := step_ne_outOfFuel S a d ld
-    cases hs : step S a d ld with
+    have hne := step_ne_outOfFuel S a d ld m
+    cases hs : step S a d ld m with
     | done r => simp only []; intro e; exact hne (by rw [hs, e])
-    | again d' ld' => exact ih (a + 1) d' ld' (by omega)
+    | again d' ld' m' => exact ih (a + 1) d' ld' m' (by omega)
 
-/-- if every attempt is plainly transient (unsolvable shard / max shard too big) and every rewind
-    succeeds, `build_loop` never returns -/
-theorem diverges_of_all_transient (S : Sys κ ν F)
-    (h : ∀ a, PlainTransient (trySeed S a) ∧ rewindsOk S a = true) (fuel : Nat) :
-    ∀ (a d ld : Nat), (buildLoop S fuel a d ld).1 = .outOfFuel := by
+/-- if every attempt is retried without bound (unsolvable shard; max shard too big with
+    `check_dups` off) and every rewind succeeds, `build_loop` never returns -/
+theorem diverges_of_all_unbounded (S : Sys κ ν F)
+    (h : ∀ a, Unbounded S (trySeed S a) ∧ rewindsOk S a = true) (fuel : Nat) :
+    ∀ (a d ld m : Nat), (buildLoop S fuel a d ld m).1 = .outOfFuel := by
   induction fuel with
-  | zero => intro a d ld; rfl
+  | zero => intro a d ld m; rfl
   | succ fuel ih =>
-    intro a d ld
-    rw [buildLoop_succ, step_plain S a d ld (h a).1, (h a).2]
-    exact ih (a + 1) d ld
+    intro a d ld m
+    obtain ⟨m', hs⟩ := step_unbounded S a d ld m (h a).1
+    rw [buildLoop_succ, hs, (h a).2]
+    exact ih (a + 1) d ld m'
 
-/-- conversely, a terminating run has met an attempt that is not plainly transient, or a rewind
-    that failed -/
+/-- conversely, a terminating run has met an attempt that is not of that kind, or a rewind that
+    failed -/
 theorem nontransient_of_terminates (S : Sys κ ν F) (fuel : Nat) :
-    ∀ (a d ld : Nat), (buildLoop S fuel a d ld).1 ≠ .outOfFuel →
-      ∃ k, a ≤ k ∧ ¬ (PlainTransient (trySeed S k) ∧ rewindsOk S k = true) := by
+    ∀ (a d ld m : Nat), (buildLoop S fuel a d ld m).1 ≠ .outOfFuel →
+      ∃ k, a ≤ k ∧ ¬ (Unbounded S (trySeed S k) ∧ rewindsOk S k = true) := by
   induction fuel with
-  | zero => intro a d ld h; exact absurd rfl h
+  | zero => intro a d ld m h; exact absurd rfl h
   | succ fuel ih =>
-    intro a d ld h
-    by_cases hp : PlainTransient (trySeed S a) ∧ rewindsOk S a = true
-    · rw [buildLoop_succ, step_plain S a d ld hp.1, hp.2] at h
-      obtain ⟨k, hk, hn⟩ := ih (a + 1) d ld h
+    intro a d ld m h
+    by_cases hp : Unbounded S (trySeed S a) ∧ rewindsOk S a = true
+    · obtain ⟨m', hs⟩ := step_unbounded S a d ld m hp.1
+      rw [buildLoop_succ, hs, hp.2] at h
+      obtain ⟨k, hk, hn⟩ := ih (a + 1) d ld m' h
       exact ⟨k, by omega, hn⟩
     · exact ⟨a, Nat.le_refl a, hp⟩
+
+/-! ## D34: the bound under `check_dups` -/
+
+def isUns : Attempt F → Bool
+  | .solveErr .unsolvable => true
+  | _ => false
+
+/-- number of `UnsolvableShard` attempts among the first `n` -/
+def unsCount (S : Sys κ ν F) : Nat → Nat
+  | 0 => 0
+  | n + 1 => unsCount S n + (if isUns (trySeed S n) then 1 else 0)
+
+/-- at the head of iteration `a` every earlier attempt was retried, and each retry incremented
+    exactly one of the three counters or was an unsolvable shard -/
+theorem buildLoop_bounded_aux (S : Sys κ ν F) (hc : S.checkDups = true) (k : Nat)
+    (hk : ∀ n, unsCount S n ≤ k) (fuel : Nat) :
+    ∀ (a d ld m : Nat), d ≤ 3 → ld ≤ 2 → m ≤ Gen.maxShardTooBigRetries →
+      a = d + ld + m + unsCount S a → 6 + Gen.maxShardTooBigRetries + k ≤ fuel + a →
+      (buildLoop S fuel a d ld m).1 ≠ .outOfFuel ∧
+      (buildLoop S fuel a d ld m).2 ≤ 6 + Gen.maxShardTooBigRetries + k := by
+  induction fuel with
+  | zero =>
+    intro a d ld m hd hld hm ha hf
+    have := hk a
+    omega
+  | succ fuel ih =>
+    intro a d ld m hd hld hm ha hf
+    have hka := hk a
+    have hk1 := hk (a + 1)
+    rw [buildLoop_succ]
+    have hne := step_ne_outOfFuel S a d ld m
+    cases hs : step S a d ld m with
+    | done r =>
+      simp only []
+      exact ⟨fun e => hne (by rw [hs, e]), by omega⟩
+    | again d' ld' m' =>
+      simp only []
+      have hu : unsCount S (a + 1) = unsCount S a + (if isUns (trySeed S a) then 1 else 0) := rfl
+      -- which arm produced `again`
+      unfold step at hs
+      cases hts : trySeed S a with
+      | solveErr e =>
+        rw [hts] at hs hu
+        cases e with
+        | dupSig =>
+          simp only [isUns] at hu
+          simp only [] at hs
+          split at hs
+          · simp at hs
+          · rename_i hlt
+            unfold retry at hs
+            split at hs
+            · injection hs with h1 h2 h3; subst h1 h2 h3
+              exact ih (a + 1) (d + 1) ld m (by omega) hld hm (by simp at hu; omega) (by omega)
+            · simp at hs
+        | dupLocalSig =>
+          simp only [isUns] at hu
+          simp only [] at hs
+          split at hs
+          · simp at hs
+          · rename_i hlt
+            unfold retry at hs
+            split at hs
+            · injection hs with h1 h2 h3; subst h1 h2 h3
+              exact ih (a + 1) d (ld + 1) m hd (by omega) hm (by simp at hu; omega) (by omega)
+            · simp at hs
+        | maxShardTooBig =>
+          simp only [isUns] at hu
+          simp only [] at hs
+          split at hs
+          · simp at hs
+          · rename_i hlt
+            rw [hc] at hlt
+            simp only [Bool.true_and, decide_eq_true_eq] at hlt
+            unfold retry at hs
+            split at hs
+            · injection hs with h1 h2 h3; subst h1 h2 h3
+              exact ih (a + 1) d ld (m + 1) hd hld (by omega) (by simp at hu; omega) (by omega)
+            · simp at hs
+        | unsolvable =>
+          simp only [isUns, if_true] at hu
+          simp only [] at hs
+          unfold retry at hs
+          split at hs
+          · injection hs with h1 h2 h3; subst h1 h2 h3
+            exact ih (a + 1) d ld m hd hld hm (by omega) (by omega)
+          · simp at hs
+      | _ => rw [hts] at hs; simp at hs
+
+/-- every seed gives an oversized maximum shard, `check_dups` on: `DuplicateKey` after exactly
+    `maxShardTooBigRetries + 1` attempts -/
+theorem mst_forced_aux (S : Sys κ ν F) (hc : S.checkDups = true)
+    (hm : ∀ a, trySeed S a = .solveErr .maxShardTooBig) (n : Nat) :
+    ∀ (a d ld m fuel : Nat), m + n = Gen.maxShardTooBigRetries →
+      (∀ j, a ≤ j → j < a + n → rewindsOk S j = true) →
+      buildLoop S (fuel + n + 1) a d ld m = (.errDuplicateKey, a + n + 1) := by
+  induction n with
+  | zero =>
+    intro a d ld m fuel hmn _
+    rw [buildLoop_succ, step_mst S a d ld m (hm a), hc]
+    have : decide (m ≥ Gen.maxShardTooBigRetries) = true := by simp; omega
+    simp [this]
+  | succ n ih =>
+    intro a d ld m fuel hmn hr
+    have : fuel + (n + 1) + 1 = (fuel + n + 1) + 1 := by omega
+    rw [this, buildLoop_succ, step_mst S a d ld m (hm a), hc]
+    have hlt : decide (m ≥ Gen.maxShardTooBigRetries) = false := by simp; omega
+    simp only [hlt, Bool.and_false, Bool.false_eq_true, if_false, hr a (Nat.le_refl a) (by omega),
+      if_true]
+    rw [ih (a + 1) d ld (m + 1) fuel (by omega) (fun j h1 h2 => hr j (by omega) (by omega))]
+    congr 1; omega
+
+/-! ## the loop before the fix -/
+
+theorem buildLoopOld_succ (S : Sys κ ν F) (fuel a d ld m : Nat) :
+    buildLoopOld S (fuel + 1) a d ld m =
+      match stepOld S a d ld m with
+      | .done r => (r, a + 1)
+      | .again d' ld' m' => buildLoopOld S fuel (a + 1) d' ld' m' := rfl
+
+theorem old_loop_diverges (S : Sys κ ν F)
+    (hm : ∀ a, trySeed S a = .solveErr .maxShardTooBig ∧ rewindsOk S a = true) (fuel : Nat) :
+    ∀ (a d ld m : Nat), (buildLoopOld S fuel a d ld m).1 = .outOfFuel := by
+  induction fuel with
+  | zero => intro a d ld m; rfl
+  | succ fuel ih =>
+    intro a d ld m
+    have hs : stepOld S a d ld m = .again d ld m := by
+      unfold stepOld retry
+      rw [(hm a).1]
+      simp [(hm a).2]
+    rw [buildLoopOld_succ, hs]
+    exact ih (a + 1) d ld m
+
+/-! ## why a heavy key forces `MaxShardTooBig` for every seed -/
+
+/-- whatever function assigns shards (whatever the seed), the shard of a key holds at least as
+    many pairs as the key has copies -/
+theorem shard_of_heavy_key {κ : Type} [DecidableEq κ] (shardOf : κ → Nat) (keys : List κ) (x : κ) :
+    keys.count x ≤ (keys.filter (fun k => shardOf k == shardOf x)).length := by
+  rw [List.count_eq_countP, ← List.countP_eq_length_filter]
+  apply List.countP_mono_left
+  intro k _ hk
+  simp only [beq_iff_eq] at hk ⊢
+  rw [hk]
+
+/-- hence the balance test of `try_seed` (`max_shard > slack · n / shards`, `slack` =
+    `Gen.maxShardSlackNum / Gen.maxShardSlackDen`, in exact arithmetic) fails for every seed as
+    soon as the multiplicity `m` of one key exceeds `slack · n / shards` -/
+theorem heavy_key_too_big {κ : Type} [DecidableEq κ] (shardOf : κ → Nat) (keys : List κ) (x : κ)
+    (shards maxShard m : Nat) (hm : m ≤ keys.count x)
+    (hmax : (keys.filter (fun k => shardOf k == shardOf x)).length ≤ maxShard)
+    (hheavy : Gen.maxShardSlackNum * keys.length < Gen.maxShardSlackDen * m * shards) :
+    Gen.maxShardSlackNum * keys.length < Gen.maxShardSlackDen * maxShard * shards := by
+  have h1 := shard_of_heavy_key shardOf keys x
+  have h2 : m ≤ maxShard := by omega
+  have h3 : Gen.maxShardSlackDen * m * shards ≤ Gen.maxShardSlackDen * maxShard * shards :=
+    Nat.mul_le_mul_right _ (Nat.mul_le_mul_left _ h2)
+  omega
 
 end Sux.Func.BL
